@@ -32,6 +32,7 @@ for patch in "${patches[@]}"; do
     cls=$(echo "$log" | grep -m1 "violation class:" | sed 's/.*violation class: //' | tr -d '"' | cut -c1-140)
     res="$res\"$p\":{\"exit\":$rc,\"class\":\"$cls\"},"
     [ $rc -eq 1 ] && caught="$caught $p"
+    [ $rc -ge 2 ] && caught="$caught $p:HARNESS-ERROR($rc)"
   done
   git -C /repo checkout -- .
   rm -f "$HERE"/replays/*.json
